@@ -16,6 +16,7 @@ CLAIMS = {
  "C14": ("differential symbolic execution: SimulateMsp430::run(step) vs. a reference step from the user's guide over symbolic registers/opcode/memory; Z3 decides state equality", "1 (C14)"),
  "C15": ("symbolic execution of one run(step) of each simulator class from a fully symbolic register/flag/memory state, with self-composition for determinism; Z3 decides bounds/div/return assertions", "1 (C15)"),
  "C16": ("symbolic execution of naken_asm's real main() on generated hostile sources with engine-chosen lengths/depths; every memory access bounds-checked, call depth and steps bounded", "1 (C16)"),
+ "C17": ("symbolic execution of the real object-file readers on skeleton files with symbolic header fields/characters; every access bounds-checked, loops bounded by the step budget", "1 (C17)"),
  "C08": ("symbolic execution of each disasm_<cpu>() over symbolic byte windows; Z3 decides length/termination/bounds/locality assertions", "1 (C08)"),
 }
 NOT_YET = {}
